@@ -216,7 +216,13 @@ def r2_keywords(ctx):
                 args = [exb.operand(a) for a in tt["args"]]
                 if args[0] == ("param", 2) and args[1][0] == "agg" and args[1][2] in zeros:
                     ok = True
-        ctx.ob(rid, "bestmove-0000-only-for-none", ok and len(zeros) == 1, "" if ok and len(zeros) == 1 else "the null move text 0000 is not produced exactly by the None arm of best_move (sites: %s)" % zeros, ctx.where(bm))
+        has_shape = any(bb["term"]["k"] == "call" and (bb["term"]["callee"].get("key") or "").endswith("Option::map_or_else") and exb.operand(bb["term"]["args"][0]) == ("param", 2) for bb in bm["blocks"])
+        if not has_shape:
+            # the line is not built with `best_move.map_or_else(|| "0000", ..)`: where the null move text comes from is
+            # not read here
+            ctx.lost(rid, "how UciTx::best_move chooses between the move text and 0000")
+        else:
+          ctx.ob(rid, "bestmove-0000-only-for-none", ok and len(zeros) == 1, "" if ok and len(zeros) == 1 else "the null move text 0000 is not produced exactly by the None arm of best_move (sites: %s)" % zeros, ctx.where(bm))
 
 
 def r3_coassign(ctx):
@@ -464,12 +470,15 @@ def r6_ponder_from_this_search(ctx):
     f = ctx.fn(rid, SEARCH + "best_move")
     cfg, ex = Cfg(f), Exprs(f)
     names = {int(k): v for k, v in f.get("names", {}).items()}
-    bm = [l for l, n in names.items() if n == "best_move"]
+    # the answer of the search: a local holding an Option of a move that is assigned inside the iteration loop
+    # (whatever it is called)
+    answers = {l for l, defs in ex.defs.items() if l > f["args"] and "Option<" in f["locals"][l]["ty"] and "Move" in f["locals"][l]["ty"] and any(cfg.in_loop(d[1]) for d in defs)}
+    answers |= {l for l, n in names.items() if n == "best_move"}
     reads = [b for b in sorted(cfg.reach) if f["blocks"][b]["term"]["k"] == "call" and (f["blocks"][b]["term"]["callee"].get("key") or "").endswith("SearchState::ponder_move")]
-    if not reads or len(bm) != 1:
-        ctx.lost(rid, "Search::best_move: the SearchState::ponder_move call and the local `best_move`")
+    if not reads or not answers:
+        ctx.lost(rid, "Search::best_move: the SearchState::ponder_move call and the local that holds the answer")
         return
-    bm = bm[0]
+    bm = min(answers)
     heads = sorted({h for (a, h) in cfg.back_edges()})
     # (a) the stored PV is cleared before the iteration loop
     cleared = False
@@ -486,7 +495,7 @@ def r6_ponder_from_this_search(ctx):
             sw = f["blocks"][a]["term"]
             if sw["k"] == "switch" and not cfg.in_loop(a):
                 d = ex.operand(sw["discr"])
-                if ("local", bm) in list(leaves(d)) or any(x[0] == "local" and names.get(x[1]) == "best_move" for x in leaves(d)):
+                if any(x[0] == "local" and x[1] in answers for x in [d] + list(leaves(d))):
                     guarded = True
         ok = guarded or cleared
         ctx.ob(rid, "ponder-move|from-this-search", ok,
@@ -500,3 +509,58 @@ _run_before_r6 = run
 def run(ctx):
     _run_before_r6(ctx)
     r6_ponder_from_this_search(ctx)
+
+
+def r7_bestmove_text_is_the_whole_move(ctx):
+    """the bestmove line carries the move as UciMove prints itself (source, target and promotion letter)"""
+    rid = "C16.R7"
+    ctx.rule(rid, "the console transmitter writes the best move (and the ponder move) through UciMove's own Display - or reads all three of its fields: a line assembled from source and target alone drops the promotion letter", floor=1)
+    prog = ctx.prog
+    root = TXIMPL + "best_move"
+    ctx.fn(rid, root, positional=False)
+    raw = getattr(prog, "raw_fns", {})
+    fns = [raw.get(k, g) for k, g in prog.fns.items() if k == root or k.startswith(root + "::")]
+    # helpers of the console module the method calls (one level), e.g. a `format_best_move` that was split off
+    for g in list(fns):
+        for bb in g["blocks"]:
+            t = bb["term"]
+            if t["k"] == "call":
+                ck = t["callee"].get("key") or ""
+                h = prog.fns.get(ck) or getattr(prog, "helper_bodies", {}).get(ck)
+                if h is not None and ck.startswith("inkayaku_uci::uci::console::") and h not in fns and not ck.endswith("::tx"):
+                    fns.append(h)
+                    fns += [g2 for k2, g2 in prog.fns.items() if k2.startswith(ck + "::")]
+    display, fields = 0, set()
+    for g in fns:
+        for bb in g["blocks"]:
+            if bb["cleanup"]:
+                continue
+            t = bb["term"]
+            if t["k"] == "call":
+                ck = t["callee"].get("key") or ""
+                ga = " ".join(str(x) for x in (t["callee"].get("generic_args") or []))
+                if ("new_display" in ck or ck.endswith("ToString>::to_string") or "as Display>::fmt" in ck) and "UciMove" in (ga + ck):
+                    display += 1
+            for st in bb["stmts"]:
+                for a in st["rv"].get("a", []) + ([{"k": "copy", "pl": st["rv"]["place"]}] if "place" in st["rv"] else []):
+                    if a.get("k") in ("copy", "move"):
+                        for e in a["pl"]["p"]:
+                            if isinstance(e, dict) and (e.get("of") or "").endswith("::UciMove") and e.get("name"):
+                                fields.add(e["name"])
+    if display:
+        ctx.ob(rid, "bestmove|whole-move-printed", True, "", ctx.where(prog.fns[root]), sample={"display_uses": display, "fields_read": sorted(fields)})
+    elif fields:
+        missing = sorted({"source", "target", "promote_to"} - fields)
+        ctx.ob(rid, "bestmove|whole-move-printed", not missing,
+               "" if not missing else "the bestmove line is assembled from the fields %s of the move, without %s (and not through UciMove's Display): %s" % (sorted(fields), missing, "a promotion is announced without its piece letter (e7e8 for e7e8q)" if "promote_to" in missing else "part of the move is not written"),
+               ctx.where(prog.fns[root]), sample={"fields_read": sorted(fields)})
+    else:
+        ctx.lost(rid, "how the console transmitter turns the best move into text (neither UciMove's Display nor its fields are used in best_move and its helpers)")
+
+
+_run_before_r7 = run
+
+
+def run(ctx):
+    _run_before_r7(ctx)
+    r7_bestmove_text_is_the_whole_move(ctx)
